@@ -214,8 +214,18 @@ func hasTaggedArg(conf *cfg.Config) bool {
 func behaviourUnits(c *Ctx, lab *probe.Lab, units []*probe.Unit, nontrivial func(conf *cfg.Config) bool, skipTainted bool) error {
 	sugarUnits(c, units)
 	priorUnits(c, units)
+	pipedUnits(c, units)
 	if err := runUnits(c, lab, units, false); err != nil {
 		return err
+	}
+	for _, u := range units {
+		for _, ok := range u.PipeSeen {
+			if ok {
+				c.Add("input_pipes_read_completely", 1)
+			} else {
+				c.Add("input_pipes_not_read_completely", 1)
+			}
+		}
 	}
 	for _, u := range units {
 		c.Add("configs_generated", 1)
@@ -262,6 +272,24 @@ func behaviourUnits(c *Ctx, lab *probe.Lab, units []*probe.Unit, nontrivial func
 		}
 	}
 	return nil
+}
+
+// pipedUnits: every twelfth unit gets its last input through a named pipe this process feeds in pieces (next to at least one
+// regular file), the way `generator | gontainer build -i base.yaml -i /dev/stdin` delivers it.
+func pipedUnits(c *Ctx, units []*probe.Unit) {
+	for i, u := range units {
+		if i%12 != 1 || u.Prior != nil || u.Stub || len(u.Files) == 0 || len(u.Piped) > 0 {
+			continue
+		}
+		if len(u.Files) == 1 && u.Patterns == nil {
+			u.Files = append([]probe.File{{Name: "a0-base.yaml", Content: "services: {}\n"}}, u.Files...)
+		}
+		if len(u.Files) < 2 {
+			continue
+		}
+		u.Piped = []int{len(u.Files) - 1}
+		c.Add("units_with_an_input_read_from_a_pipe", 1)
+	}
 }
 
 var samePkgName = strings.NewReplacer("fixt/deep/pa", "fixt/pa", "fixt/pa", "fixt/deep/pa", "aaa.test/lib", "zzz.test/lib", "zzz.test/lib", "aaa.test/lib")
